@@ -231,6 +231,83 @@ theorem scan_finds_lcp_partial (pre a b : List H) (hpre : pre ≠ [])
       rw [hb] at hm
       exact absurd (List.getElem?_eq_getElem _) (hdis _ _ hm)
 
+/-- The newest position of a block of `cnt` positions below `m`, or the flat scan of the rest. -/
+theorem scanDown_block (l r : List H) (cnt m : Nat) (h : cnt ≤ m) :
+    scanDown l r m =
+      match (((List.range cnt).map (fun k => m - cnt + k)).reverse.find? (matchAt l r)) with
+      | some i => some i
+      | none => scanDown l r (m - cnt) := by
+  induction cnt generalizing m with
+  | zero => simp
+  | succ c ih =>
+    obtain ⟨m', rfl⟩ : ∃ m', m = m' + 1 := ⟨m - 1, by omega⟩
+    have hmap : (List.range (c + 1)).map (fun k => m' + 1 - (c + 1) + k)
+        = (List.range c).map (fun k => m' - c + k) ++ [m'] := by
+      rw [List.range_succ, List.map_append]
+      congr 1
+      · apply List.map_congr_left; intro k _; omega
+      · simp only [List.map_cons, List.map_nil, List.cons.injEq, and_true]; omega
+    rw [hmap, List.reverse_append]
+    simp only [List.reverse_cons, List.reverse_nil, List.nil_append, List.cons_append, List.find?_cons]
+    rw [show scanDown l r (m' + 1) = if matchAt l r m' = true then some m' else scanDown l r m' from rfl]
+    cases hm : matchAt l r m' with
+    | true => simp
+    | false =>
+      simp only [Bool.false_eq_true, if_false]
+      rw [ih m' (by omega)]
+      have : m' + 1 - (c + 1) = m' - c := by omega
+      rw [this]
+
+/-- C08/9.  Paging changes nothing: the client's paged loop over `scan_log` responses
+(any page size > 0, enough rounds) visits the same positions in the same order as one flat
+scan from the newest position down, so it stops at the same position or is exhausted alike. -/
+theorem paged_scan_eq_flat_scan (l r : List H) (limit : Nat) (hlim : 0 < limit) :
+    ∀ (fuel offset : Nat), offset ≤ r.length → r.length - offset ≤ fuel →
+      scanPaged l r limit (fuel + 1) offset = scanDown l r (r.length - offset) := by
+  intro fuel
+  induction fuel with
+  | zero =>
+    intro offset h1 h2
+    have : offset = r.length := by omega
+    subst this
+    simp [scanPaged, scanPage, scanDown]
+  | succ f ih =>
+    intro offset h1 h2
+    by_cases hge : offset ≥ r.length
+    · have : offset = r.length := by omega
+      subst this
+      simp [scanPaged, scanPage, scanDown]
+    · have hlt : offset < r.length := by omega
+      have hl0 : limit ≠ 0 := by omega
+      rw [scanPaged]
+      simp only [scanPage, hge, if_false, hl0]
+      have hcpos : 0 < min limit (r.length - offset) := by rw [Nat.lt_min]; omega
+      have hcle : min limit (r.length - offset) ≤ r.length - offset := Nat.min_le_right _ _
+      generalize hc : min limit (r.length - offset) = cnt at hcpos hcle
+      have hne : ((List.range cnt).map (fun k => r.length - offset - cnt + k)).isEmpty = false := by
+        cases cnt with
+        | zero => omega
+        | succ c => simp [List.range_succ]
+      simp only [hne, Bool.false_eq_true, if_false]
+      rw [scanDown_block l r cnt (r.length - offset) hcle]
+      cases hf : ((List.range cnt).map (fun k => r.length - offset - cnt + k)).reverse.find? (matchAt l r) with
+      | some i => rfl
+      | none =>
+        simp only
+        rw [ih (offset + cnt) (by omega) (by omega)]
+        congr 1; omega
+
+/-- Pages tile the log: a page holds exactly the positions `[n - offset - cnt, n - offset)`
+in ascending order and the next offset is `offset + cnt`. -/
+theorem scan_page_positions (n offset limit : Nat) (h : offset < n) (hlim : 0 < limit) :
+    (scanPage n offset limit).1 =
+      (List.range (min limit (n - offset))).map (fun k => n - offset - min limit (n - offset) + k)
+    ∧ (scanPage n offset limit).2 = offset + min limit (n - offset) := by
+  unfold scanPage
+  have h1 : ¬ offset ≥ n := by omega
+  have h2 : limit ≠ 0 := by omega
+  simp [h1, h2]
+
 private def A : H := .leaf [1]
 private def B : H := .leaf [2]
 private def C : H := .leaf [3]
@@ -242,6 +319,8 @@ the search stop there, although the true common prefix is `[A]`.
 theorem scan_not_lcp : scanDown [A, B, C] [A, X, C] 3 = some 2 := by decide
 
 /- Non-vacuity: the hypotheses of the theorems above are met by concrete logs. -/
+example : scanPage 5 2 2 = ([1, 2], 4) := by decide
+example : scanPaged [A, B, C] [A, X, X] 1 4 0 = some 0 := by decide
 example : Merkle.compare [A, B, C] ((head [A, B]).get (by decide)) = some (some (.contains [1])) := by decide
 example : Merkle.compare [A, X, C] ((head [A, B, C]).get (by decide)) = some (some .unknown) := by decide
 example : Merkle.compare [A, B] ((head [A, B, C]).get (by decide)) = some (some .unknown) := by decide
